@@ -79,6 +79,10 @@ NestedParams ==
   {Named([type |-> "array", cf |-> "pipes",
           items |-> [type |-> "array", cf |-> "csv", maxItems |-> 2, items |-> [type |-> "integer", maximum |-> 10]]], loc, req) :
       loc \in {"query", "header"}, req \in BOOLEAN}
+\* nested arrays with a default: an absent parameter gives the handler the default
+NestedDefaultParams ==
+  {Put(Named([type |-> "array", cf |-> "pipes", items |-> [type |-> "array", cf |-> "csv", items |-> [type |-> "integer"]]], loc, FALSE),
+       "default", Arr(<<Arr(<<Num(2), Num(4)>>), Arr(<<Num(10)>>)>>)) : loc \in {"query", "header", "formData"}}
 \* nested arrays whose innermost items need a converter but carry no validation at all
 NestedPlainParams ==
   {Named([type |-> "array", cf |-> "pipes", items |-> [type |-> "array", cf |-> "csv", items |-> [type |-> t]]], loc, FALSE) :
@@ -87,7 +91,7 @@ ArrayDefaultParams ==
   {Put(Named(ArrayOf("i_int", cf), loc, FALSE), "default", Arr(<<Num(4), Num(6)>>)) : cf \in {"none", "pipes"}, loc \in {"query", "header"}}
 
 Params == {p \in ScalarParams : ScalarOK(p)} \cup DefaultParams \cup AllowEmptyParams
-          \cup {p \in ArrayParams : ArrayOK(p)} \cup ArrayCountParams \cup NestedParams \cup NestedPlainParams \cup ArrayDefaultParams
+          \cup {p \in ArrayParams : ArrayOK(p)} \cup ArrayCountParams \cup NestedParams \cup NestedPlainParams \cup NestedDefaultParams \cup ArrayDefaultParams
 
 \* file parameters (multipart upload): the value is the content of the file; minLength / maxLength bound its
 \* size.  They are part of the client/server universe (C04) and of the build matrix (C01); the raw-request
